@@ -457,6 +457,30 @@ package trend
 //@ ensures[C05] "range" forall kk :: 0 <= kk && kk < len(result) ==> 0 - 1 <= result[kk] && result[kk] <= 1
 //@ ensures[C03] consumed(c) == len(c) && closed(result)
 //@ ensures[C04] forall kk :: 0 <= kk && kk < len(result) ==> hor(result, kk) <= hor(c, kk)
+//@ rel[C18] "price" param lam real
+//@ rel[C18] "price" assume lam > 0 && len(second(c)) == len(c) && (forall k :: 0 <= k && k < len(c) ==> pscaled(second(c)[k], c[k], lam))
+//@ rel[C18] "price" assume forall j :: 0 <= j ==> winS(arg(Vwma_Compute, 0, 1), v.Vwma.Period)[j] != 0
+//@ rel[C18] "price" step forall j :: 0 <= j && j < len(c) ==> second(arg(Vwma_Compute, 0, 0))[j] == lam * arg(Vwma_Compute, 0, 0)[j] && second(arg(Vwma_Compute, 0, 1))[j] == arg(Vwma_Compute, 0, 1)[j]
+//@ rel[C18] "price" step forall j :: 0 <= j && j < len(c) ==> second(arg(Sma_Compute, 0, 0))[j] == lam * arg(Sma_Compute, 0, 0)[j]
+//@ rel[C18] "price" use[cond] vwmaS_pscale(arg(Vwma_Compute, 0, 0), arg(Vwma_Compute, 0, 1), second(arg(Vwma_Compute, 0, 0)), second(arg(Vwma_Compute, 0, 1)), lam, v.Vwma.Period, len(c), _)
+//@ rel[C18] "price" step forall i :: 0 <= i && i < len(vwmas) ==> second(vwmas)[i] == lam * vwmas[i]
+//@ rel[C18] "price" step forall i :: 0 <= i && i < len(smas) ==> smas[i] == smaS(arg(Sma_Compute, 0, 0), v.Sma.Period)[i] && second(smas)[i] == smaS(second(arg(Sma_Compute, 0, 0)), v.Sma.Period)[i]
+//@ rel[C18] "price" use[cond] smaS_scale_n(arg(Sma_Compute, 0, 0), second(arg(Sma_Compute, 0, 0)), lam, v.Sma.Period, len(c), _)
+//@ rel[C18] "price" step forall i :: 0 <= i && i < len(smas) ==> second(smas)[i] == lam * smas[i]
+//@ rel[C18] "price" use forall i :: mul_cmp(lam, vwmas[i], smas[i])
+//@ rel[C18] "price" ensures len(second(result)) == len(result) && (forall k :: 0 <= k && k < len(result) ==> second(result)[k] == result[k])
+//@ rel[C18] "volume" param mu real
+//@ rel[C18] "volume" assume mu > 0 && len(second(c)) == len(c) && (forall k :: 0 <= k && k < len(c) ==> vscaled(second(c)[k], c[k], mu))
+//@ rel[C18] "volume" assume forall j :: 0 <= j ==> winS(arg(Vwma_Compute, 0, 1), v.Vwma.Period)[j] != 0
+//@ rel[C18] "volume" step forall j :: 0 <= j && j < len(c) ==> second(arg(Vwma_Compute, 0, 0))[j] == arg(Vwma_Compute, 0, 0)[j] && second(arg(Vwma_Compute, 0, 1))[j] == mu * arg(Vwma_Compute, 0, 1)[j]
+//@ rel[C18] "volume" step forall j :: 0 <= j && j < len(c) ==> second(arg(Sma_Compute, 0, 0))[j] == 1 * arg(Sma_Compute, 0, 0)[j]
+//@ rel[C18] "volume" use[cond] vwmaS_vscale(arg(Vwma_Compute, 0, 0), arg(Vwma_Compute, 0, 1), second(arg(Vwma_Compute, 0, 0)), second(arg(Vwma_Compute, 0, 1)), mu, v.Vwma.Period, len(c), _)
+//@ rel[C18] "volume" step forall i :: 0 <= i && i < len(vwmas) ==> second(vwmas)[i] == 1 * vwmas[i]
+//@ rel[C18] "volume" step forall i :: 0 <= i && i < len(smas) ==> smas[i] == smaS(arg(Sma_Compute, 0, 0), v.Sma.Period)[i] && second(smas)[i] == smaS(second(arg(Sma_Compute, 0, 0)), v.Sma.Period)[i]
+//@ rel[C18] "volume" use[cond] smaS_scale_n(arg(Sma_Compute, 0, 0), second(arg(Sma_Compute, 0, 0)), 1, v.Sma.Period, len(c), _)
+//@ rel[C18] "volume" step forall i :: 0 <= i && i < len(smas) ==> second(smas)[i] == 1 * smas[i]
+//@ rel[C18] "volume" use forall i :: mul_cmp(1, vwmas[i], smas[i])
+//@ rel[C18] "volume" ensures len(second(result)) == len(result) && (forall k :: 0 <= k && k < len(result) ==> second(result)[k] == result[k])
 
 //@ func WeightedCloseStrategy.Compute
 //@ requires consumed(snapshots) == 0
